@@ -5,5 +5,8 @@ ProgUp == (1 :> <<"lock_shared","upgrade","rel">>) @@ (2 :> <<"lock_shared","upg
 \* try operations and downgrade
 ProgTry == (1 :> <<"try_lock","downgrade","rel">>) @@ (2 :> <<"try_lock_shared","upgrade","rel">>) @@ (3 :> <<"lock","downgrade","rel">>)
 \* thorough: 3 ops each incl. re-acquisition
+\* try_lock_shared racing a writer's acquisition (two try readers + one writer) and racing an upgrade of the only reader
+ProgTryA == (1 :> <<"try_lock_shared","rel">>) @@ (2 :> <<"try_lock_shared","rel">>) @@ (3 :> <<"lock","rel">>)
+ProgTryB == (1 :> <<"lock_shared","upgrade","rel">>) @@ (2 :> <<"try_lock_shared","rel">>) @@ (3 :> <<"try_lock_shared","rel">>)
 ProgBig == (1 :> <<"lock_shared","upgrade","downgrade","rel">>) @@ (2 :> <<"try_lock_shared","upgrade","rel","lock","rel">>) @@ (3 :> <<"lock","rel","lock_shared","rel">>)
 ====
